@@ -1,19 +1,23 @@
 #!/bin/sh
-# usage: run_seeded.sh [ids...]  — applies each seeded patch to /repo, runs every claimed quick check, reverts.
+# usage: run_seeded.sh [ids...]  — applies each seeded patch to /repo, runs every claimed
+# property on it (one load, `pqverif -sweep`, quick configuration), reverts.
 cd /verif
+. /verif/env.sh >/dev/null 2>&1
 IDS=${*:-$(ls seeded)}
-PROPS=$(python3 -c "import json;print(' '.join(c['property_id'] for c in json.load(open('MANIFEST.json'))['checks']))")
 [ -n "$(git -C /repo status --porcelain)" ] && { echo "/repo not clean"; exit 2; }
 for id in $IDS; do
-  git -C /repo apply /verif/seeded/$id/patch.diff || { echo "$id: patch does not apply"; continue; }
-  HIT=""
-  for p in $PROPS; do
-    out=$(VERIF_NO_EVIDENCE=1 ./bin/pqverif -prop $p -tier quick -evidence /tmp/seeded-ev -known /verif/known_findings.json 2>&1)
-    if echo "$out" | grep -q "^VIOLATION"; then
-      rules=$(echo "$out" | grep -o "rule=[A-Za-z0-9_.]*" | sort -u | paste -sd, | sed 's/rule=//g')
-      HIT="$HIT $p[$rules]"
-    fi
-  done
+  git -C /repo apply /verif/seeded/$id/patch.diff 2>/dev/null || { echo "$id: patch does not apply"; continue; }
+  out=$(./bin/pqverif -sweep -known /verif/known_findings.json 2>&1)
   git -C /repo checkout -- .
+  HIT=$(echo "$out" | grep "^SWEEP\|^LOAD-FAILED" | sed 's/^SWEEP //' | python3 -c "
+import sys,re
+parts=[]
+for l in sys.stdin:
+    l=l.strip()
+    if l.startswith('LOAD-FAILED'): parts.append(l[:120]); continue
+    pid,rest=l.split(': ',1)
+    rules=sorted(set(re.findall(r'(C\d\d\.[A-Za-z0-9_]+) \{',rest)))
+    parts.append(pid+'['+','.join(rules)+']')
+print(' '.join(parts))")
   echo "$id: ${HIT:- MISSED}"
 done
